@@ -477,6 +477,8 @@ class Engine:
         st = State()
         self.dom.init_state(st, fi, con)
         self.functions_run[qual] = {'hash': fi.hash, 'file': fi.file, 'span': fi.span}
+        first_ob = len(self.obls)
+        stale = self.stale_hooks(fi, fr, con)
         # parameters
         names, defaults, vararg, kwarg = fi.params()
         for i, nm in enumerate(names):
@@ -514,6 +516,51 @@ class Engine:
         self.exc_states = ctl.exc
         self.dom.after_verify(self, fi, con, ctl)
         self.frames = []
+        if stale:
+            # the contract names a loop / call site / local that the function no longer has (e.g. after a behaviour-preserving restructuring): whatever is not
+            # discharged for this function is then UNDECIDED, never a violation (the driver reads this flag)
+            for ob in self.obls[first_ob:]:
+                ob.meta = dict(ob.meta or {}, stale_contract=stale)
+
+    def stale_hooks(self, fi, fr, con):
+        """keys of the sidecar contract (loop invariants, site hooks, ghost hooks) that do not match the current source of the function"""
+        out = []
+        loops = set(fr.loop_ord.values())
+        calls = set(fr.call_ord.values())
+        nret = sum(isinstance(n, ast.Return) for n in ast.walk(fi.node)) + 1
+        assigned = assigned_names(fi.node.body) | {a.arg for a in fi.node.args.args}
+
+        def site_ok(site):
+            q, _, k = site.rpartition('#')
+            short = q.split('.')[-1]
+            if k == '*':
+                return any(c[0] == short for c in calls)
+            return k.isdigit() and (short, int(k)) in calls
+
+        def ret_ok(lab):
+            return lab == 'return' or (lab.startswith('return#') and lab[7:].isdigit() and int(lab[7:]) <= nret)
+        for key in con.loops:
+            if key not in loops:
+                out.append('loop %s' % key)
+        for key in con.asserts:
+            if key.startswith('before:'):
+                if not site_ok(key[7:]):
+                    out.append('call site %s' % key[7:])
+            elif key.startswith('break@'):
+                if key[6:] not in loops:
+                    out.append('loop %s' % key[6:])
+            elif not ret_ok(key):
+                out.append('site %s' % key)
+        for key in con.ghost_before:
+            if not site_ok(key):
+                out.append('call site %s' % key)
+        for key in con.ghost_after_assign:
+            if key.partition('@')[0] not in assigned:
+                out.append('local %s' % key.partition('@')[0])
+        for key in list(con.ghost_return_at) + list(con.dead):
+            if not ret_ok(key):
+                out.append('site %s' % key)
+        return out
 
     def check_frame(self, con, st, old, lab, ln):
         """every tracked location not covered by `modifies` is unchanged at return"""
